@@ -214,8 +214,15 @@ class Validator:
     # -- attributes ---------------------------------------------------------------------------------
     def check_attributes(self, node, t, path):
         declared = {}
-        for a in t.iter(XS + "attribute"):
-            declared[a.get("name")] = a
+
+        def direct(n):
+            for c in n:
+                if c.tag == XS + "attribute":
+                    declared[c.get("name")] = c
+                elif c.tag in (XS + "complexContent", XS + "simpleContent", XS + "extension", XS + "restriction"):
+                    direct(c)
+
+        direct(t)
         for name, a in declared.items():
             if a.get("use") == "required" and name not in node.attrib:
                 self.problems.append("%s: required attribute '%s' missing" % (path, name))
